@@ -344,15 +344,38 @@ impl<'a> LocaleTranslations<'a> {
     }
 }
 
+/// Write `s` as a JSON string literal (Rust's `Debug` escapes such as `\u{a0}` or `\0` are not JSON).
+fn write_json_string(f: &mut std::fmt::Formatter<'_>, s: &str) -> std::fmt::Result {
+    const HEX: &[u8; 16] = b"0123456789abcdef";
+    f.write_char('"')?;
+    for c in s.chars() {
+        match c {
+            '"' => f.write_str("\\\"")?,
+            '\\' => f.write_str("\\\\")?,
+            '\n' => f.write_str("\\n")?,
+            '\r' => f.write_str("\\r")?,
+            '\t' => f.write_str("\\t")?,
+            c if (c as u32) < 0x20 => {
+                f.write_str("\\u00")?;
+                f.write_char(HEX[(c as usize) >> 4] as char)?;
+                f.write_char(HEX[(c as usize) & 0xf] as char)?;
+            }
+            c => f.write_char(c)?,
+        }
+    }
+    f.write_char('"')
+}
+
 impl Display for TranslationsFormatter<'_> {
     fn fmt(&self, f: &mut std::fmt::Formatter<'_>) -> std::fmt::Result {
         f.write_char('[')?;
         let mut iter = self.strings.iter();
         if let Some(first) = iter.next() {
-            write!(f, "{:?}", first)?;
+            write_json_string(f, first)?;
         }
         for s in iter {
-            write!(f, ",{:?}", s)?;
+            f.write_char(',')?;
+            write_json_string(f, s)?;
         }
         f.write_char(']')
     }
